@@ -148,7 +148,7 @@ def run_shard(sh, ctx):
 						ctx.violation('no-output', 'exit 0 but no output file', w_)
 						continue
 					Qi, Ri = list(qidx), list(ridx)
-					cells = check_matrix(ctx, out.read_text(), qlabels, rlabels, lambda a, b: G.dist(Qi[a], Ri[b], *eff), w_, f'dist {qch}/{rch}')
+					cells = check_matrix(ctx, open(out, newline='').read(), qlabels, rlabels, lambda a, b: G.dist(Qi[a], Ri[b], *eff), w_, f'dist {qch}/{rch}')
 					if cells is None:
 						continue
 					if rch == 'square':
@@ -166,7 +166,7 @@ def run_shard(sh, ctx):
 							cmd2 = ['dist', '-o', out2, '--no-progress'] + args + qargs + sum([['-r', G.items[i]['path']] for i in qidx], [])
 							code2, _, se2, exc2 = clidrv.run_inproc(cmd2)
 							ctx.count('square_vs_both_sides')
-							if code2 != 0 or out2.read_text() != out.read_text():
+							if code2 != 0 or open(out2, newline='').read() != open(out, newline='').read():
 								ctx.violation('square-differs-from-both-sides', f'--square output differs from passing the same genomes as -q and -r (exit {code2})', w_)
 					if len({G.items[i]['label'] for i in qidx}) < len(qidx):
 						ctx.count('duplicate_labels')
